@@ -34,7 +34,8 @@ namespace ratio
     CORE_EXPORT void scope::new_fields(scope &s, const std::vector<const field *> &fs)
     {
         for (const auto &f : fs)
-            s.fields.emplace(f->get_name(), f);
+            if (!s.fields.emplace(f->get_name(), f).second)
+                delete f; // the scope already defines a field with this name (e.g. the 'tau' of a predicate declared within a type)..
     }
     void scope::new_fields(const std::vector<const field *> &fs)
     {
